@@ -25,6 +25,11 @@ DNext == /\ depth < MaxDepth
               /\ Stot' = IF IsChannel(Gates[gi]) THEN Stot ELSE Force(MMul(Force(Embed(Gates[gi])), Stot))
               /\ mixed' = (mixed \/ IsChannel(Gates[gi]))
 DSpec == DInit /\ [][DNext]_<<vars, dvars>>
+(* state constraint: TLC's integers are 32-bit; states whose exact moments have numerators or denominators above the bound are not explored *)
+(* (their theorems would overflow in the products below) -- deep chains of strong squeezers in the thorough tier                       *)
+Bounded(M, B) == \A i \in 1..Len(M) : \A j \in 1..Len(M[i]) :
+                    M[i][j].d <= B /\ \A k \in 1..4 : M[i][j].n[k] <= B /\ M[i][j].n[k] >= -B
+DecompConstraint == Bounded(Gam, 200) /\ Bounded(Stot, 200)
 ------------------------------------------------------------------------------
 AllPassive == \A i \in 1..Len(hist) : Gates[hist[i]].passive
 PassiveBlock == [i \in 1..D |-> [j \in 1..D |-> Stot[i][j]]]
